@@ -20,7 +20,7 @@ BOUNDS = {
     "thorough": {"resolution": "same spellings, N in {2,3}, 4 width sets, both dim orders",
                  "geometry": "N in {2,3,4,5}, every (lo,hi) in {0..N}^2 on both axes (N<=3) / one axis (N=4,5)"},
 }
-OUTSIDE = ["widths > N", "3 axes", "periodic given as a partial dict (statement does not fix the unnamed axes)", "float rounding"]
+OUTSIDE = ["widths > N", "3 axes", "periodic given as a partial dict (statement does not fix the unnamed axes)", "float rounding", "integer fill values beyond 2**53 on int64 data (fills are reals / small integers; seed C02-d)"]
 ASSUMPTIONS = ["input data finite"]
 SWEEPS = {"nan": 5}
 
